@@ -45,6 +45,18 @@ theorem C20_dbKeyValue_roundtrip (k v : Val) (hk : WT dbValueSchema k) (hv : WT 
   have := C20_roundtrip dbKeyValueSchema _ [] hwt (by simpa [ser, serList] using hs)
   simpa [ser, serList] using this
 
+/-! ### Where the statement fails on the code as it is (known findings, no small repair)
+
+`WT .path` demands valid UTF-8 because `PathBuf::serialize` goes through `to_string_lossy()`:
+the path with the single byte `0xFF` is written as U+FFFD and reads back as a different path.
+(The other lossy encoding, `SocketAddrV6::flowinfo`, is invisible to the model: `to_string()` does
+not print it; the harness oracle reports it.) -/
+
+theorem C20_path_lossy_counterexample :
+    (match de .fixed .path (serPath [0xFF]) with
+     | .ok (.blob back, _) => back != [0xFF]
+     | _ => false) = true := by decide
+
 /-! Non-vacuity: the hypotheses are satisfiable on non-trivial values. -/
 
 /-- `DbValue::String("hé")` (tag 4) is well typed … -/
